@@ -399,6 +399,7 @@ def run(P, R, tier):
     strcopy_rule(P, R)
     putkey_rule(P, R)
     progkeep_rule(P, R)
+    linestore_rule(P, R)
     onrecord_rule(P, R)
     R.undecided += ["(e) arithmetic and string results for all programs", "(f) malformed programs produce a BASIC error, never a wrong value or a hang"]
     ens = [e for e in P.enums.values() if e["q"].endswith("BASIC_TOKEN")]
@@ -1115,3 +1116,72 @@ def progkeep_rule(P, R):
                         "line (-headings, -start) are discarded silently" % (inst, bad), file=f["file"], line=bad, function=q)
     if n < 2:
         R.anchor_missing(RULE, "readers of USER_PUNCH / USER_PRINT not found")
+
+
+def linestore_rule(P, R):
+    """The line store (parseinput): a line entered with a number that is already in the program REPLACES the old line, a new number is
+    inserted in order.  The walk `while (l != NULL && l->num ? curline)` and the test `if (l != NULL && l->num == curline)` that
+    follows it are executed concretely on a model program with the lines 10, 20, 30 for the new numbers 5, 10, 15, 20, 30, 40: the walk
+    must stop at the first line whose number is not smaller, and the replacement test must fire exactly for 10, 20, 30.  (With `<=` the
+    walk passes the equal line, both lines stay in the program and the old one keeps executing first.)"""
+    from .. import minieval as ME
+    RULE = "C17.linestore"
+    R.rule(RULE, "parseinput: the walk of the line list stops at the first line number >= the new one and an equal number replaces the stored line", minimum=6)
+    f = P.one("PBasic::parseinput")
+    walks = [x for x in T.walk(f["body"]) if x[0] == "While" and any(y[0] == "Member" and y[2].endswith("::num") for y in T.walk(x[2]))
+             and any(y[0] == "Member" and y[2].endswith("curline") or (y[0] == "Ref" and y[3] == "curline") for y in T.walk(x[2]))]
+    if len(walks) != 1:
+        R.anchor_missing(RULE, "parseinput: the walk over the line list was found %d times" % len(walks))
+        return
+    wk = walks[0]
+    # the walking pointer: the local that the body advances with `p = p->next`
+    adv = [w for w in T.walk(wk[3]) if w[0] == "Bin" and w[2] == "=" and T.is_node(T.strip_casts(w[4])) and T.strip_casts(w[4])[0] == "Member"
+           and T.strip_casts(w[4])[2].endswith("::next")]
+    if len(adv) != 1:
+        R.anchor_missing(RULE, "parseinput: the walk does not advance with `l = l->next`")
+        return
+    ptr = T.strip_casts(adv[0][3])[3]
+    stmts = None
+    for blk in T.walk(f["body"]):
+        if blk[0] == "Compound" and wk in blk[2]:
+            stmts = blk[2]
+    k = stmts.index(wk)
+    tests = [x for x in stmts[k + 1:k + 3] if T.is_node(x) and x[0] == "If" and any(y[0] == "Member" and y[2].endswith("::num") for y in T.walk(x[2]))]
+    if len(tests) != 1:
+        R.anchor_missing(RULE, "parseinput: the replacement test after the walk was not found")
+        return
+    nums = [10, 20, 30]
+    for cur in (5, 10, 15, 20, 30, 40):
+        idx = [0]
+
+        def resolve(n, cur=cur, idx=idx):
+            if n[0] == "Ref" and n[3] == ptr:
+                return idx[0] + 1 if idx[0] < len(nums) else 0
+            if n[0] == "Member" and n[2].endswith("::num"):
+                if idx[0] >= len(nums):
+                    raise ME.Unsupported("dereference of the end of the list")
+                return nums[idx[0]]
+            if (n[0] == "Member" and n[2].endswith("curline")) or (n[0] == "Ref" and n[3] == "curline"):
+                return cur
+            return None
+        inst = "new=%d" % cur
+        try:
+            env = ME.Env(resolve=resolve)
+            guard = 0
+            while ME.ev(wk[2], env):
+                idx[0] += 1
+                guard += 1
+                if guard > 10:
+                    raise ME.Unsupported("walk does not end")
+            replaced = bool(ME.ev(tests[0][2], env))
+        except ME.Unsupported as e:
+            R.anchor_missing(RULE, "parseinput: %s not evaluable (%s)" % (inst, e))
+            return
+        want_idx = sum(1 for v in nums if v < cur)
+        want_rep = cur in nums
+        if idx[0] == want_idx and replaced == want_rep:
+            R.ok(RULE, inst, "stops before position %d, %s" % (idx[0], "replaces" if replaced else "inserts"))
+        else:
+            R.violation(RULE, inst, "program 10 20 30, new line %d: the walk stops before position %d (%d expected) and the line is %s (%s expected): a line entered again "
+                        "does not replace the stored one" % (cur, idx[0], want_idx, "replaced" if replaced else "inserted", "replaced" if want_rep else "inserted"),
+                        file=f["file"], line=wk[1], function=f["q"])
